@@ -339,7 +339,7 @@ theorem creditAll_spec {c : RCfg} (hc : c.Ok) (ps : List Payee) :
     ∀ (s : State) (as : List Nat), LInv s →
       LInv (creditAll c s ps as) ∧ total (creditAll c s ps as) ≤ total s + (as.sum : Nat) := by
   induction ps with
-  | nil => intro s as h; cases as <;> simp [creditAll, h] <;> omega
+  | nil => intro s as h; cases as <;> (simp [creditAll, h]; try omega)
   | cons p t ih =>
     intro s as h
     cases as with
